@@ -239,7 +239,7 @@ func checkC08(c *caseC08) (viol string, nontrivial bool, feats []string) {
 				}
 			}
 			// run: directly and after dump/load
-			for _, via := range []string{"direct", "dump+load", "disasm+trace", "twice", "after-other-parses"} {
+			for _, via := range []string{"direct", "dump+load", "disasm+trace", "twice", "after-other-parses", "load-into-used-prog"} {
 				var out, log bytes.Buffer
 				p, lerr, pan := loadProg(bytes.NewReader(e.dump), "n", optOut(&out), optLog(&log))
 				if pan != nil || lerr != nil {
@@ -281,6 +281,18 @@ func checkC08(c *caseC08) (viol string, nontrivial bool, feats []string) {
 						}
 						return fmt.Sprintf("after parsing other sources, the program's stored line table is %s, the newline offsets of its source are %s (dump changed: %v %v)", lfs, clipInts(m.nl), pan2, err2), false, feats
 					}
+				case "load-into-used-prog":
+					// Prog.Load replaces everything, the line table included,
+					// whatever the Prog held before
+					used, uerr := bcl.Parse([]byte("\n\n# other\n\nprint 1\n\n\n\ndef o {\n\n}\n"), "o", optOut(&out), optLog(&log))
+					if uerr != nil {
+						continue
+					}
+					if lerr := used.Load(bytes.NewReader(e.dump)); lerr != nil {
+						return fmt.Sprintf("%s: Load into a used Prog failed: %v", e.name, lerr), false, feats
+					}
+					out.Reset()
+					p = used
 				case "twice":
 					// a second run of the same program object
 					executeWith(p, &out, &log)
